@@ -348,7 +348,11 @@ func (m *Monitors) betMonitors(c *Chain, o Op, res string, prev, cur *Snap) []st
 	// ---------------- balance deltas of user accounts ----------------
 	delta := map[string]*big.Int{}
 	for a, x := range cur.Bal {
-		delta[a] = sub(x, prev.Bal[a])
+		pb := prev.Bal[a]
+		if pb == nil {
+			pb = z()
+		}
+		delta[a] = sub(x, pb)
 	}
 	expect := map[string]*big.Int{}
 	exp := func(a string, x *big.Int) {
@@ -594,6 +598,13 @@ func (m *Monitors) betMonitors(c *Chain, o Op, res string, prev, cur *Snap) []st
 						}
 					}
 					exp(p.ParticipantAddress, ret)
+					// a participation held through a subaccount forwards a house profit to the owner
+					if ow, ok := cur.SubOwner[p.ParticipantAddress]; ok {
+						if prof := sub(ret, p.Liquidity.BigInt()); prof.Sign() > 0 {
+							exp(p.ParticipantAddress, new(big.Int).Neg(prof))
+							exp(ow, prof)
+						}
+					}
 					if p.TotalBetAmount.IsZero() {
 						exp(p.ParticipantAddress, p.Fee.BigInt())
 					} else {
